@@ -271,6 +271,117 @@ func init() {
 					c.Sample(map[string]interface{}{"ring": sv(closed), "signed_area_m2": sa, "box": sv(box), "box_area_m2": want})
 				},
 			},
+			{
+				// continent-sized and world-spanning vertex lists on special coordinates: integer degrees, vertices exactly on the
+				// equator, the prime meridian, the antimeridian; rings wider than 180 degrees of longitude
+				Name: "special-coordinates-and-wide-rings", Count: h.Fixed(20000, 6000000),
+				Run: func(c *h.Ctx, idx uint64, r *h.Rand) {
+					n := r.Range(3, 10)
+					open := make(orb.Ring, n)
+					mode := r.Intn(4)
+					for i := range open {
+						switch mode {
+						case 0: // integer degrees anywhere
+							open[i] = orb.Point{float64(r.Range(-180, 180)), float64(r.Range(-89, 89))}
+						case 1: // multiples of 10 and 45 degrees: many exact zeros, right angles, the antimeridian
+							open[i] = orb.Point{[]float64{-180, -135, -90, -45, 0, 45, 90, 135, 180, 10, -10}[r.Intn(11)], []float64{-80, -45, -10, 0, 0, 10, 45, 80}[r.Intn(8)]}
+						case 2: // floats over the whole world
+							open[i] = orb.Point{r.Uniform(-180, 180), r.Uniform(-89, 89)}
+						default: // a wide star around a centre near the equator
+							a := 2 * math.Pi * (float64(i) + r.Uniform(0, 0.9)) / float64(n)
+							open[i] = orb.Point{r.Uniform(-20, 20) + 150*r.Uniform(0.5, 1)*math.Cos(a), 80 * r.Uniform(0.3, 1) * math.Sin(a)}
+							open[i][0] = math.Max(-180, math.Min(180, open[i][0]))
+						}
+					}
+					if r.P(1, 3) {
+						open[0][1] = 0 // the first vertex exactly on the equator
+					}
+					if r.P(1, 6) {
+						open[0][0] = 0
+					}
+					minLon, maxLon, sumdl := 180.0, -180.0, 0.0
+					for i := range open {
+						minLon, maxLon = math.Min(minLon, open[i][0]), math.Max(maxLon, open[i][0])
+						sumdl += math.Abs(open[i][0]-open[(i+1)%n][0]) * math.Pi / 180
+					}
+					if maxLon-minLon > 180 {
+						c.Count("rings_wider_than_180_degrees", 1)
+					}
+					tolA := 1e-9 * earthR * earthR * (sumdl + 1)
+					closed := append(append(orb.Ring{}, open...), open[0])
+					sa := geo.SignedArea(closed)
+					a0 := geo.Area(closed)
+					c.Evals(2)
+					if !(math.Abs(math.Abs(sa)-a0) <= tolA) {
+						c.Fail("", "Area(ring) is not |SignedArea(ring)|", map[string]interface{}{"ring": sv(closed), "area": a0, "signed": sa})
+					}
+					if ua := geo.SignedArea(open); !(math.Abs(ua-sa) <= tolA) {
+						c.Fail("", "closed and unclosed spelling of a ring have different areas", map[string]interface{}{"ring": sv(open), "closed": sa, "unclosed": ua})
+					}
+					for k := 1; k < n; k++ {
+						rot := make(orb.Ring, 0, n+1)
+						for i := 0; i < n; i++ {
+							rot = append(rot, open[(i+k)%n])
+						}
+						ura := geo.SignedArea(rot)
+						rot = append(rot, rot[0])
+						ra := geo.SignedArea(rot)
+						c.Evals(2)
+						if !(math.Abs(ra-sa) <= tolA) || !(math.Abs(ura-sa) <= tolA) {
+							c.Fail("", "area changes when the ring starts at another vertex", map[string]interface{}{"ring": sv(closed), "rotation": k, "area": sa, "rotated_closed": ra, "rotated_unclosed": ura})
+							break
+						}
+					}
+					rev := closed.Clone()
+					rev.Reverse()
+					if rsa := geo.SignedArea(rev); !(math.Abs(rsa+sa) <= tolA) || !(math.Abs(geo.Area(rev)-a0) <= tolA) {
+						c.Fail("", "reversing a ring does not negate the signed area / keep the area", map[string]interface{}{"ring": sv(closed), "signed": sa, "reversed_signed": rsa})
+					}
+					c.Eval()
+					// lengths: the sum of the segment distances for every kind that has segments
+					seg := func(ps []orb.Point, df func(a, b orb.Point) float64) float64 {
+						t := 0.0
+						for i := 1; i < len(ps); i++ {
+							t += df(ps[i-1], ps[i])
+						}
+						return t
+					}
+					ls := orb.LineString(open)
+					other := orb.LineString{{float64(r.Range(-170, 170)), 0}, {float64(r.Range(-170, 170)), float64(r.Range(-80, 80))}, {r.Uniform(-170, 170), r.Uniform(-80, 80)}}
+					bound := orb.Bound{Min: orb.Point{float64(r.Range(-170, 0)), float64(r.Range(-80, 0))}, Max: orb.Point{float64(r.Range(0, 170)), float64(r.Range(0, 80))}}
+					if r.Bool() {
+						bound.Min[1] = 0
+					}
+					type lcase struct {
+						name   string
+						g      orb.Geometry
+						wE, wH float64
+					}
+					brE, brH := seg(bound.ToRing(), geo.Distance), seg(bound.ToRing(), geo.DistanceHaversine)
+					lE, lH := seg(ls, geo.Distance), seg(ls, geo.DistanceHaversine)
+					cE, cH := seg(closed, geo.Distance), seg(closed, geo.DistanceHaversine)
+					oE, oH := seg(other, geo.Distance), seg(other, geo.DistanceHaversine)
+					for _, lc := range []lcase{
+						{"line string", ls, lE, lH},
+						{"ring", closed, cE, cH},
+						{"polygon (outer ring and a hole)", orb.Polygon{closed, orb.Ring(other)}, cE + oE, cH + oH},
+						{"multi line string", orb.MultiLineString{other, ls}, oE + lE, oH + lH},
+						{"multi polygon", orb.MultiPolygon{{orb.Ring(other)}, {closed}}, oE + cE, oH + cH},
+						{"bound", bound, brE, brH},
+						{"collection", orb.Collection{other, bound, orb.Point{1, 0}, orb.Collection{ls}}, oE + brE + lE, oH + brH + lH},
+					} {
+						c.Evals(2)
+						if got := geo.Length(lc.g); !relClose(got, lc.wE, 1e-12, 0) {
+							c.Fail("", "geo.Length("+lc.name+") is not the sum of its segment distances", map[string]interface{}{"value": sv(lc.g), "got": got, "want": lc.wE})
+						}
+						if got := geo.LengthHaversine(lc.g); !relClose(got, lc.wH, 1e-12, 0) {
+							c.Fail("", "geo.LengthHaversine("+lc.name+") is not the sum of its segment distances", map[string]interface{}{"value": sv(lc.g), "got": got, "want": lc.wH})
+						}
+					}
+					c.Nontrivial(hashPts(closed))
+					c.Sample(map[string]interface{}{"ring": sv(closed), "signed_area_m2": sa, "lon_extent": maxLon - minLon})
+				},
+			},
 		},
 	})
 }
